@@ -18,9 +18,9 @@ EXTENDS NnxGraph
 
 CONSTANTS MaxScript, MaxCalls, Kinds, MinEdits, BuildKinds, Scenario
 
-VARIABLES args, script, kind, eh, ncalls, trip, ret
+VARIABLES args, script, kind, eh, ncalls, trip, ret, nflips
 
-uvars == <<heap, phase, nedits, nops, h, args, script, kind, eh, ncalls, trip, ret>>
+uvars == <<heap, phase, nedits, nops, h, args, script, kind, eh, ncalls, trip, ret, nflips>>
 
 
 \* navigation by slot numbers from an argument; 0 if the path does not resolve to an object
@@ -73,7 +73,8 @@ Loops(k) == k \in {"while", "fori"}
 
 \* sum of the values of the Variables reachable from the first argument (the function's returned number)
 RECURSIVE SumVals(_, _)
-SumVals(H, S_) == IF S_ = {} THEN 0 ELSE LET i == CHOOSE j \in S_ : TRUE IN (IF IsVar(H[i]) THEN H[i].val ELSE 0) + SumVals(H, S_ \ {i})
+\* (the function also reads a metadata attribute of every Variable: + 1000 for each Variable whose tag is set)
+SumVals(H, S_) == IF S_ = {} THEN 0 ELSE LET i == CHOOSE j \in S_ : TRUE IN (IF IsVar(H[i]) THEN H[i].val + 1000 * H[i].meta ELSE 0) + SumVals(H, S_ \ {i})
 Total(H) == SumVals(H, Closure(H, {args[1]}))
 
 (***************************************************************************)
@@ -81,7 +82,7 @@ NoRet == [arg |-> 0, path |-> <<>>, wrap |-> FALSE]
 \* scenario "dict2": the graph already holds a dict attribute with two Variables (then edited further)
 Dict2 == <<Obj("A", 2, 0, 0, 0), Obj("D", 3, 4, 0, 0), Obj("P", 0, 0, 1, 0), Obj("P", 0, 0, 2, 0)>>
 UInit == /\ heap = (IF Scenario = "dict2" THEN Dict2 ELSE <<Obj("A", 0, 0, 0, 0)>>)
-         /\ phase = "build" /\ nedits = 0 /\ nops = 0 /\ h = <<>> /\ ret = NoRet /\ args = <<>> /\ script = <<>> /\ kind = "none" /\ eh = <<>> /\ ncalls = 0 /\ trip = 1
+         /\ phase = "build" /\ nedits = 0 /\ nops = 0 /\ h = <<>> /\ ret = NoRet /\ args = <<>> /\ script = <<>> /\ kind = "none" /\ eh = <<>> /\ ncalls = 0 /\ trip = 1 /\ nflips = 0
 
 UBuild == /\ phase = "build"
           /\ \/ \E p \in 1..N, slot \in 1..2 :
@@ -89,7 +90,7 @@ UBuild == /\ phase = "build"
                   \/ \E k \in VarKinds, val \in 1..2 : p <= Len(heap) /\ NewChild(p, slot, k, val, 0)
                   \/ \E t \in 1..N : p <= Len(heap) /\ t <= Len(heap) /\ LinkTo(p, slot, t)
                   \/ p <= Len(heap) /\ SetLeaf(p, slot, -1)
-          /\ UNCHANGED <<args, script, kind, eh, ncalls, trip, ret>>
+          /\ UNCHANGED <<args, script, kind, eh, ncalls, trip, ret, nflips>>
 
 \* choose the arguments (the root, optionally a second Module that may alias into the first) and the transform
 Choose == /\ phase = "build" /\ phase' = "script" /\ nedits >= MinEdits
@@ -97,12 +98,12 @@ Choose == /\ phase = "build" /\ phase' = "script" /\ nedits >= MinEdits
                /\ args' = IF a2 = 0 THEN <<1>> ELSE <<1, a2>>
                /\ kind' = k /\ trip' = IF Loops(k) THEN t ELSE 1
           /\ eh' = heap
-          /\ UNCHANGED <<heap, nedits, nops, h, script, ncalls, ret>>
+          /\ UNCHANGED <<heap, nedits, nops, h, script, ncalls, ret, nflips>>
 
 AddOp(op) == /\ phase = "script" /\ Len(script) < MaxScript
              /\ ScriptValid(heap, Append(script, op), 1)
              /\ script' = Append(script, op)
-             /\ UNCHANGED <<heap, phase, nedits, nops, h, args, kind, eh, ncalls, trip, ret>>
+             /\ UNCHANGED <<heap, phase, nedits, nops, h, args, kind, eh, ncalls, trip, ret, nflips>>
 ScriptOps ==
   LET cur == ApplyScript(heap, script, 1) IN
   {[o |-> "setval", arg |-> a.arg, path |-> a.path, slot |-> 0, arg2 |-> 1, path2 |-> <<>>] : a \in {x \in Addr(cur) : IsVar(cur[x.id])}}
@@ -117,7 +118,7 @@ EndScript == /\ phase = "script" /\ script # <<>> /\ phase' = "calls"
              /\ \/ ret' = NoRet
                 \/ /\ kind \in {"jit", "remat", "eager"}
                    /\ \E a \in {x \in Addr(heap) : IsGraph(heap[x.id])}, w \in BOOLEAN : ret' = [arg |-> a.arg, path |-> a.path, wrap |-> w]
-             /\ UNCHANGED <<heap, nedits, nops, h, args, script, kind, eh, ncalls, trip>>
+             /\ UNCHANGED <<heap, nedits, nops, h, args, script, kind, eh, ncalls, trip, nflips>>
 
 \* one call of the transformed function on the caller's objects
 Call == /\ phase = "calls" /\ ncalls < MaxCalls
@@ -131,9 +132,18 @@ Call == /\ phase = "calls" /\ ncalls < MaxCalls
                                    retid |-> IF ret.arg = 0 THEN 0 ELSE Nav(eh, args[ret.arg], ret.path),
                                    total |-> LET H2 == Times(eh, script, trip) IN SumVals(H2, Closure(H2, {args[1]}))])
         /\ ncalls' = ncalls + 1
-        /\ UNCHANGED <<heap, phase, nedits, nops, args, script, kind, trip, ret>>
+        /\ UNCHANGED <<heap, phase, nedits, nops, args, script, kind, trip, ret, nflips>>
 
-UNext == UBuild \/ Choose \/ (\E op \in ScriptOps : AddOp(op)) \/ EndScript \/ Call
+\* between two calls the *caller* changes, eagerly, a metadata attribute of one of its Variables that the function reads:
+\* the next call of the same transformed function must see it (the graph definition changed: no stale trace)
+Flip == /\ phase = "calls" /\ ncalls >= 1 /\ ncalls < MaxCalls /\ nflips = 0 /\ kind # "cached_partial"
+        /\ \E id \in {i \in Closure(eh, {args[1]}) : i <= Len(heap) /\ IsVar(eh[i])} :
+             /\ eh' = [eh EXCEPT ![id].meta = 1 - @]
+             /\ h' = Append(h, [call |-> 0, outcome |-> "flip", structural |-> FALSE, heap |-> [eh EXCEPT ![id].meta = 1 - @], retid |-> id, total |-> 0])
+        /\ nflips' = 1
+        /\ UNCHANGED <<heap, phase, nedits, nops, args, script, kind, ncalls, trip, ret>>
+
+UNext == UBuild \/ Choose \/ (\E op \in ScriptOps : AddOp(op)) \/ EndScript \/ Call \/ Flip
 USpec == UInit /\ [][UNext]_uvars
 
 \* the reference semantics never loses the caller's objects: ids only grow, existing Variables keep their kind
